@@ -218,6 +218,59 @@ func permPlusEntryFamily(n int) family {
 	}, never}
 }
 
+// sizeSweepFamily (fifth seeding round, seed C04-12): sizes 7..10. A routine may switch its
+// method at a size threshold (recursion replaced by an elimination from some n on, a blocked
+// variant, a scratch buffer of fixed capacity), and the families above stop at n=6. Complete
+// enumeration is out of reach there, so the sweep keeps the templates whose pivot search has
+// one candidate per column and runs them under a set of row permutations that contains both
+// parities, a fixed point free one and every adjacent interchange: identity, (k k+1) for every
+// k, (0 n-1), the cyclic shift and the reversal - every routine and option set as for n=5, 6.
+func sweepPerms(n int) [][]int {
+	id := func() []int {
+		p := make([]int, n)
+		for i := range p {
+			p[i] = i
+		}
+		return p
+	}
+	r := [][]int{id()}
+	for k := 0; k+1 < n; k++ {
+		p := id()
+		p[k], p[k+1] = p[k+1], p[k]
+		r = append(r, p)
+	}
+	p := id()
+	p[0], p[n-1] = p[n-1], p[0]
+	r = append(r, p)
+	p = id()
+	for i := range p {
+		p[i] = (i + 1) % n
+	}
+	r = append(r, p)
+	p = id()
+	for i := range p {
+		p[i] = n - 1 - i
+	}
+	r = append(r, p)
+	return r
+}
+
+func sizeSweepFamily(n int, templates []string) family {
+	perms := sweepPerms(n)
+	np := int64(len(perms))
+	return family{fmt.Sprintf("n=%d,size sweep: %d row permutations (identity, adjacent interchanges, (0 n-1), cyclic shift, reversal) of unit upper-tri templates %v", n, np, templates), n, np * int64(len(templates)), func(i int64) exact.Mat {
+		u := upperTemplate(n, templates[i/np])
+		p := perms[i%np]
+		m := exact.New(n)
+		for r := 0; r < n; r++ {
+			for c := 0; c < n; c++ {
+				m.Set(r, c, u.At(p[r], c))
+			}
+		}
+		return m
+	}, always}
+}
+
 func never(exact.Mat) bool { return false }
 
 // largeFamilies: the families of sizes 5 and 6 per tier.
@@ -230,6 +283,8 @@ func largeFamilies(thorough bool) []family {
 			companionFamily(5, a3), arrowFamily(5, []int64{1, 2}), spdTridiagonalFamily(5), upperToeplitzFamily(5), permPlusEntryFamily(5),
 			rowPermFamily(6, []string{"identity", "ones", "bidiagonal", "alternating"}, never),
 			companionFamily(6, a3), arrowFamily(6, []int64{1, 2}), spdTridiagonalFamily(6), upperToeplitzFamily(6), permPlusEntryFamily(6),
+			sizeSweepFamily(7, []string{"identity", "bidiagonal", "ones"}), sizeSweepFamily(8, []string{"identity", "bidiagonal", "ones"}),
+			sizeSweepFamily(9, []string{"identity", "bidiagonal"}), sizeSweepFamily(10, []string{"identity"}),
 		}
 	}
 	return []family{
@@ -237,5 +292,6 @@ func largeFamilies(thorough bool) []family {
 		companionFamily(5, a3), arrowFamily(5, []int64{2}), spdTridiagonalFamily(5), upperToeplitzFamily(5),
 		rowPermFamily(6, []string{"ones"}, never),
 		companionFamily(6, a2), arrowFamily(6, []int64{2}), spdTridiagonalFamily(6), upperToeplitzFamily(6),
+		sizeSweepFamily(7, []string{"bidiagonal"}), sizeSweepFamily(8, []string{"identity", "bidiagonal"}), sizeSweepFamily(9, []string{"identity"}),
 	}
 }
